@@ -138,8 +138,25 @@ def appropriate_input(rng, kind):
     return s
 
 
-def scalar_case(kind, x):
-    return {"mode": "scalar", "kind": kind, "x": S.py_to_nat(x), "conv": S.conv_entries(kind, x)}
+def scalar_case(kind, x, pre=None, with_pre=False):
+    """`pre` (when with_pre): a set() performed on the same element before the observed one; the
+    outcome of a set() must not depend on it."""
+    c = {"mode": "scalar", "kind": kind, "x": S.py_to_nat(x), "conv": S.conv_entries(kind, x)}
+    if with_pre:
+        c["pre"] = S.py_to_nat(pre)
+        c["has_pre"] = True
+    return c
+
+
+def fresh_scalar(case):
+    cls = S.kind_cls(case["kind"])
+    el = cls()
+    if case.get("has_pre"):
+        try:
+            el.set(S.nat_to_py(case["pre"]))
+        except Exception:  # noqa: BLE001
+            el = cls()
+    return cls, el
 
 
 # ---------------------------------------------------------------- running the real code
@@ -552,6 +569,7 @@ class C04(Property):
         "Flatland.C04.Proofs.reset_value_partial",
         "Flatland.C04.Proofs.C04_reset_u_fails",
         "Flatland.C04.Proofs.C04_reset_value_fails",
+        "Flatland.C04.Proofs.signals_spec",
     ]
     generated_obligations = ["Flatland.C04.Proofs.pyTables_ok"]
     trusted_base = [
@@ -596,6 +614,25 @@ class C04(Property):
             scalar_case(K_enum(K_string(True), ["a", "b"]), None),
             scalar_case(K_int(True), "1" * (S.MAXD + 1)),
             scalar_case({"k": "date", "strip": False}, "2020-01-02\n"),
+            scalar_case(K_int(True), decimal.Decimal("1E+5000")),      # KF-C04-a through int(Decimal)
+        ]
+        str_f = {"s": "scalar", "kind": K_string(True)}
+        int_f = {"s": "scalar", "kind": K_int(True)}
+        d = {"s": "dict", "policy": "subset", "fields": [["a", str_f], ["n", int_f], ["when", {"s": "date"}]]}
+        pairs = lambda items: {"i": "list", "v": [{"i": "list", "v": [leaf(k), v]} for k, v in items]}
+        cases += [
+            # duplicate key: the child is set twice, the Dict signals once, last
+            tree_case(d, pairs([("a", leaf("x")), ("n", leaf("12")), ("a", leaf(None)), ("when", leaf("2020-01-02"))])),
+            # not dict-like: returns False, keeps the members of the previous set
+            tree_case(d, leaf(5), pairs([("a", leaf("kept"))])),
+            # DateYYYYMMDD.set(None): AttributeError swallowed, False, members untouched
+            tree_case({"s": "date"}, leaf(None), leaf(datetime.date(2020, 1, 2))),
+            tree_case({"s": "date"}, leaf("garbage")),
+            # JoinedString.set(None) raises TypeError (not a scalar type of the first clause; noted)
+            tree_case({"s": "joined", "sep": ",", "prune": True, "member": K_string(True)}, leaf(None)),
+            tree_case({"s": "joined", "sep": ",", "prune": True, "member": K_int(True)}, leaf("1,,x, 2")),
+            tree_case({"s": "seq", "as": "list", "member": {"s": "seq", "as": "array", "member": int_f}},
+                      {"i": "list", "v": [{"i": "list", "v": [leaf("1"), leaf("x")]}, leaf("45"), leaf(7)]}),
         ]
         return cases
 
@@ -634,7 +671,10 @@ class C04(Property):
                 x = appropriate_input(rng, kind)
             else:
                 x = S.random_native(rng)
-            yield scalar_case(kind, x)
+            if rng.random() < 0.3:
+                yield scalar_case(kind, x, appropriate_input(rng, kind), True)
+            else:
+                yield scalar_case(kind, x)
 
     # ------------------------------------------------------------ implementation runner
 
@@ -646,9 +686,8 @@ class C04(Property):
     def run_impl(self, case):
         if case["mode"] == "tree":
             return tree_obs(case)
-        cls = S.kind_cls(case["kind"])
+        cls, el = fresh_scalar(case)
         x = S.nat_to_py(case["x"])
-        el = cls()
         first, _ = scalar_obs(el, x)
         reset = None
         if first["exc"] is None and first["flag"]:
@@ -667,14 +706,19 @@ class C04(Property):
     # ------------------------------------------------------------ oracle
 
     def oracle(self, case):
+        try:
+            return self._oracle(case)
+        except Exception as e:  # noqa: BLE001 - a probe of the real code raised: that is a finding, not a crash
+            return [{"clause": "set-raises", "expected": None, "observed": type(e).__name__, "where": "oracle probe"}]
+
+    def _oracle(self, case):
         from flatland.exc import AdaptationError
         if case["mode"] == "tree":
             return self.tree_oracle(case)
         fails = []
         kind = case["kind"]
-        cls = S.kind_cls(kind)
+        cls, el = fresh_scalar(case)
         x = S.nat_to_py(case["x"])
-        el = cls()
         flag, exc, events = observe_set(el, x)
         if exc:
             fails.append({"clause": "set-raises", "expected": None, "observed": exc})
@@ -788,6 +832,8 @@ class C04(Property):
         s = obs["set"]
         x = case["x"]
         t = ["kind=" + kind_tag(case["kind"]), "input=" + ("none" if x is None else x["t"])]
+        if case.get("has_pre"):
+            t.append("scalar-preset")
         if s["exc"]:
             t.append("exc=" + s["exc"])
         else:
@@ -814,10 +860,17 @@ class C04(Property):
             return
         x = case["x"]
         kind = case["kind"]
+        if case.get("has_pre"):
+            yield scalar_case(kind, S.nat_to_py(x))
+            orig = scalar_case
+            pre = S.nat_to_py(case["pre"])
+            scalar_case_ = lambda k, v: orig(k, v, pre, True)
+        else:
+            scalar_case_ = scalar_case
         if x is not None and x["t"] == "str":
             v = x["v"]
             for i in range(len(v)):
-                yield scalar_case(kind, v[:i] + v[i + 1:])
+                yield scalar_case_(kind, v[:i] + v[i + 1:])
             if len(v) > 8:
                 yield scalar_case(kind, v[: len(v) // 2])
         if x is not None and x["t"] == "int":
